@@ -14,13 +14,15 @@ import (
 
 // VC holds the loaded program and global translation tables.
 type VC struct {
-	repo    string
-	modPath string
-	prog    *ssa.Program
-	fset    *token.FileSet
-	pkgs    map[string]*ssa.Package // by directory relative to repo root
-	pkgDir  map[*ssa.Package]string
-	cs      *ContractSet
+	repo       string
+	modPath    string
+	prog       *ssa.Program
+	fset       *token.FileSet
+	pkgs       map[string]*ssa.Package // by directory relative to repo root
+	pkgDir     map[*ssa.Package]string
+	cs         *ContractSet
+	tier       string
+	orderTaint map[*ssa.Function]map[ssa.Value]bool
 
 	structSorts map[string]*Sort
 	structOrder []string
